@@ -14,9 +14,9 @@ CHECKS = {
   technique="Lean 4 proof over a model regenerated from source by py2lean (+ translator self-check)"),
  "C01": dict(
   category="proof",
-  text="Lean 4 theorem resume_eq_straight over a model of BasicOperationEngine/SimulationHistory/handlers that is parametric in the play function, the store, the checkpoint type, the clock, the debug view and the hash: for EVERY plan and cut, reload + continue yields the logs of the uninterrupted run; nothing_else_matters: engines with equal logs are bisimilar. The hypothesis StoreLaws (all that influences the future is in the saved store) is validated on the real code: checkpoint round trips of every reached store and every-cut resumed runs (memory and JSON) for all 8 jobs; the model is tied to the engine by replaying it over play tables recorded from real runs AND end to end: Model/JobRunner.lean instantiates the parametric engine with a concrete router built from the dispatcher model and all 62 component models, runs whole plans of all eight jobs in Lean and must reproduce the real engine play by play (events and the full store); for that instantiation StoreLaws is proved (C01_Job: job_store_laws, job_resume_eq_straight, job_rollback_replay, job_hint_sound_chain).",
+  text="Lean 4 theorem resume_eq_straight over a model of BasicOperationEngine/SimulationHistory/handlers that is parametric in the play function, the store, the checkpoint type, the clock, the debug view and the hash: for EVERY plan and cut, reload + continue yields the logs of the uninterrupted run; nothing_else_matters: engines with equal logs are bisimilar; refused_commands_leave_no_trace / resume_eq_straight_with_refusals (part file C01_Refused): the same for sessions in which commands are refused with an exception and the caller goes on (malformed ELAPSE, unknown command word, raising debug line), cut anywhere. The hypothesis StoreLaws (all that influences the future is in the saved store) is validated on the real code: checkpoint round trips of every reached store and every-cut resumed runs (memory and JSON) for all 8 jobs; the model is tied to the engine by replaying it over play tables recorded from real runs AND end to end: Model/JobRunner.lean instantiates the parametric engine with a concrete router built from the dispatcher model and all 62 component models, runs whole plans of all eight jobs in Lean and must reproduce the real engine play by play (events and the full store); for that instantiation StoreLaws is proved (C01_Job: job_store_laws, job_resume_eq_straight, job_rollback_replay, job_hint_sound_chain).",
   design_ref="DESIGN.md §4 C01",
-  note="Trusted: Lean kernel + standard axioms; hand model tied by recorded-table replay; StoreLaws hypothesis (validated, not proved); pydantic dump/validate and json; unknown command words / ELAPSE without time outside the model.",
+  note="Trusted: Lean kernel + standard axioms; hand model tied by recorded-table replay; StoreLaws hypothesis (validated, not proved); pydantic dump/validate and json; a refused command is modelled by what _exec_operation / _console leave behind when the FIRST play raises (an exception in a later play of one operation is not modelled).",
   technique="Lean 4 proof (invariant + induction over commands) on a hand-written engine model + differential correspondence"),
  "C03": dict(
   category="proof",
